@@ -320,6 +320,14 @@ func cmdCheck(args []string) int {
 					why += "; replay: " + note
 				}
 				violate(o.Name, why, "no-failing-input-found", o, vc)
+			case o.Result == "sat":
+				// not in the baseline (new or re-worded code), but the solver has a counter-model
+				r.Status = "violated-sat-new"
+				why := "obligation generated from changed code is refuted by the solver (counter-model attached)"
+				if note != "" {
+					why += "; replay: " + note
+				}
+				violate(o.Name, why, "no-failing-input-found", o, vc)
 			default:
 				nUndecidedNew++
 				r.Status = "undecided-new"
